@@ -125,14 +125,14 @@ impl<'a> WorldSat<'a> {
     }
 
     pub fn ecdsa(&self, k: usize) -> Option<bitcoin::ecdsa::Signature> {
-        let sp = Spend { tx: self.tx, prevout: self.prevout };
+        let sp = Spend::single(self.tx, self.prevout);
         let msg = ecdsa_msg(&sp, &self.ecdsa_scope, EcdsaSighashType::All)?;
         let sig = self.u.secp.sign_ecdsa(&msg, &self.u.sks[k]);
         Some(bitcoin::ecdsa::Signature { signature: sig, sighash_type: EcdsaSighashType::All })
     }
 
     pub fn schnorr_leaf(&self, k: usize, lh: &TapLeafHash) -> Option<bitcoin::taproot::Signature> {
-        let sp = Spend { tx: self.tx, prevout: self.prevout };
+        let sp = Spend::single(self.tx, self.prevout);
         let msg = schnorr_msg(&sp, &SigScope::TapLeaf { leaf_hash: *lh }, TapSighashType::Default)?;
         let sig = self.u.secp.sign_schnorr_no_aux_rand(&msg, &self.u.keypairs[k]);
         Some(bitcoin::taproot::Signature { signature: sig, sighash_type: TapSighashType::Default })
